@@ -25,7 +25,7 @@ def harness(sym):
 
 def _shards(tier):
     if tier == "quick":
-        return [{"template": t, "n": min(TICKS[t], 16)} for t in BLOCK_TEMPLATES]
+        return [{"template": t, "n": min(TICKS[t], 16) if t != "two_watch_blocks" else 24} for t in BLOCK_TEMPLATES]
     return [{"template": t, "n": TICKS[t] + 4} for t in BLOCK_TEMPLATES]
 
 
